@@ -1,0 +1,42 @@
+//! Read-only structural dump of a `World`, compiled only under `--cfg brood_verif`.
+//!
+//! Nothing in here changes behaviour; it only exposes plain data (addresses are reported as
+//! integers and never dereferenced by the dump itself beyond what the owning structure owns).
+
+use alloc::vec::Vec;
+
+/// Dump of a single archetype table.
+#[derive(Clone, Debug, Eq, PartialEq)]
+pub struct ArchetypeDump {
+    /// Address of the identifier buffer owned by the archetype.
+    pub identifier_addr: usize,
+    /// Capacity of the identifier buffer.
+    pub identifier_capacity: usize,
+    /// Bytes of the identifier.
+    pub identifier_bytes: Vec<u8>,
+    /// Number of rows.
+    pub length: usize,
+    /// `(index, generation)` of the entity identifiers stored in each row.
+    pub entity_identifiers: Vec<(usize, u64)>,
+    /// `(address, capacity)` of the entity identifier column.
+    pub entity_identifier_column: (usize, usize),
+    /// `(address, capacity)` of each component column.
+    pub columns: Vec<(usize, usize)>,
+}
+
+/// Dump of a whole world.
+#[derive(Clone, Debug, Eq, PartialEq)]
+pub struct Dump {
+    /// `World::len`.
+    pub len: usize,
+    /// Per slot: generation, and the location `(archetype identifier address, row)` if active.
+    pub slots: Vec<(u64, Option<(usize, usize)>)>,
+    /// The free list in order.
+    pub free: Vec<usize>,
+    /// The archetype tables in table iteration order.
+    pub archetypes: Vec<ArchetypeDump>,
+    /// Identifier addresses stored as values in the type id lookup.
+    pub type_id_lookup: Vec<usize>,
+    /// `(key address, key length, value identifier address)` in the foreign identifier lookup.
+    pub foreign_identifier_lookup: Vec<(usize, usize, usize)>,
+}
